@@ -37,6 +37,7 @@ type thr struct {
 	started bool
 	isTimer bool
 	harness bool // spawned by verifrt.Go
+	spin    int  // consecutive receives from a closed channel without blocking in between
 	name    string
 }
 
@@ -345,6 +346,7 @@ type pendingSend struct {
 
 func (s *schedT) blockOnChans() {
 	cur := s.cur
+	cur.spin = 0
 	cur.state = stBlocked
 	cur.waitMu = nil
 	cur.waitCh = true
@@ -399,12 +401,32 @@ func (c *vchan) doRecv(elem types.Type) (value, bool) {
 	return zero(elem), false
 }
 
+// noteRecv detects a thread that spins on a closed channel (a loop whose exit was lost): after
+// spinLimit consecutive closed receives without blocking the path ends with a target panic.
+const spinLimit = 200
+
+func noteRecv(ok bool) {
+	if SC.cur == nil {
+		return
+	}
+	if ok {
+		SC.cur.spin = 0
+		return
+	}
+	SC.cur.spin++
+	if SC.cur.spin > spinLimit {
+		SC.cur.spin = 0
+		panic(targetPanic{iface{types.Typ[types.String], "busy loop: the goroutine keeps receiving from a closed channel and never blocks or returns (livelock)"}})
+	}
+}
+
 func chanRecv(v value, elem types.Type) (value, bool) {
 	c, _ := v.(*vchan)
 	SC.yield()
 	for {
 		if c != nil && c.canRecv() {
 			x, ok := c.doRecv(elem)
+			noteRecv(ok)
 			SC.wakeChanWaiters()
 			return x, ok
 		}
@@ -495,6 +517,7 @@ func chanSelect(fr *frame, instr *ssa.Select) value {
 		c := fr.get(st.Chan).(*vchan)
 		if st.Dir == types.RecvOnly {
 			x, ok := c.doRecv(st.Chan.Type().Underlying().(*types.Chan).Elem())
+			noteRecv(ok)
 			SC.wakeChanWaiters()
 			return selectResult(fr, instr, i, x, ok)
 		}
